@@ -128,11 +128,12 @@ CLAIMED = {
     "C13": dict(
         text="Lean 4 theorems: the centre of mass of a profile symmetric about a centre on the half-pixel grid is that centre; it "
              "follows whole-pixel translations and ignores non-zero scaling (any field); every autoconvolution value is bounded by "
-             "the energy and the bound is attained at the symmetry centre (reals). Tie: find_origin(com/convolution/image_center, "
+             "the energy, the bound is attained at the symmetry centre and, for a non-zero profile, at no other lag — the argmax is unique "
+             "(reals; centre_is_unique_argmax). Tie: find_origin(com/convolution/image_center, "
              "axes) vs the Lean model bit-for-bit on integer-valued images. Oracle: symmetric images about every half-pixel centre, "
              "translations, scalings, axes; Gaussian spots for the Gaussian fit.",
-        note="Trusted: Lean kernel + standard axioms; scipy center_of_mass / np.convolve / argmax as tied by K; uniqueness of the "
-             "first argmax and the Gaussian fit (curve_fit) are measured, not proved.",
+        note="Trusted: Lean kernel + standard axioms; scipy center_of_mass / np.convolve / argmax as tied by K; the Gaussian fit "
+             "(curve_fit) is measured, not proved.",
         technique="Lean 4 proof (finite-sum reflection, AM-GM) + bit-exact differential correspondence",
         design="§3 C13"),
     "C14": dict(
